@@ -519,7 +519,9 @@ theorem C07_call_args_untainted (root : Node) (w : World) (fuel : Nat) (rs : Boo
     · cases h
     · rename_i hs
       split at h
-      · cases h
+      · split at h
+        · split at h <;> cases h
+        · cases h
       · split at h
         · cases h
         · rename_i items st1 he
@@ -534,7 +536,9 @@ theorem C07_call_args_untainted (root : Node) (w : World) (fuel : Nat) (rs : Boo
     · cases h
     · rename_i hs
       split at h
-      · cases h
+      · split at h
+        · split at h <;> cases h
+        · cases h
       · split at h
         · cases h
         · rename_i items st1 he
